@@ -16,9 +16,14 @@ RULE = ('signatures with 0-3 parameters (annotated from a pool of 27 annotations
         'origin reports as __name__ / __qualname__ / _name — for every pool annotation x spelling x {parameter, Returns, next to a correct '
         'neighbour} x trigger path (enumerated), change '
         'the documented type at every node of its syntax tree, drop the type, typing. prefix, undefined name, class outside the '
-        'context, unparsable text, wrong arity, drop / add / alter / untype Returns, missing / empty / summary-only docstring) x '
+        'context, unparsable text, wrong arity, drop / add / alter / untype Returns — also a Returns section with free text without a `type:` prefix '
+        '(8 texts, one- and two-line), with nothing in it, with white space only: added to functions returning None (`-> None`, no annotation, `__init__`; '
+        '0-2 parameters; def / async def) and replacing the typed entry of value-returning ones —, missing / empty / summary-only docstring) x '
         'trigger paths (@pedantic, @pedantic_require_docstring, @pedantic(require_docstring=True), pedantic_class_require_docstring '
-        'on a class with 1-2 methods, ENABLE_PEDANTIC=0); the finite grid trigger x raw docstring kind x number of documented '
+        'on a class with 1-2 methods, pedantic_class (methods are @pedantic functions), ENABLE_PEDANTIC=0); CLASS HIERARCHIES: the decorated class '
+        'derives from a class decorated before with pedantic_class / pedantic_class_require_docstring / trace_class / timer_class / '
+        'for_all_methods(pedantic), directly or one level up (also an undecorated base, no base), and defines a new method / an override / __init__ / a '
+        'coroutine with the consistent docstring, every single edit of it or none; the finite grid trigger x raw docstring kind x number of documented '
         'parameters is enumerated.  Each case is a real .py module imported from a temp dir; outcome = exception class raised '
         'by the import (or none) and whether a wrapper was returned.  non-trivial = docstring checking applies')
 EXHAUSTIVE = {'quick': False, 'thorough': False}
@@ -156,6 +161,9 @@ RET_EXTRA = [('None', None), (None, None)]       # `-> None`, no return annotati
 ATOMS = ['int', 'str', 'float', 'None', 'My', 'Other', 'Foo', 'T', 'Any']
 HEAD_SWAP = {'List': ['list', 'Set'], 'list': ['List', 'set'], 'Dict': ['dict'], 'dict': ['Dict'], 'Tuple': ['tuple', 'Union'],
              'Set': ['List'], 'Type': ['List'], 'Optional': ['List'], 'Union': ['Tuple'], 'Callable': [], 'Literal': []}
+# Returns entries without a `type:` prefix (no colon anywhere: docstring_parser takes what precedes the first colon for the type)
+FREE_TEXT = ['whether the value was stored', 'nothing of interest', 'the stored value, always', 'a new store', 'None',
+             'the value that was stored\nand a second line of prose', 'int', 'bool - True on success']
 UNPARSABLE = ['List[int', 'int str', 'List[int]]', '?']                      # SyntaxError out of eval
 ILL_TYPED = ['List[int, str]', 'Dict[str]', 'int[str]', 'Optional[int, str]', 'Any[int]', 'Callable[[int]]', 'None | None']   # TypeError
 
@@ -319,12 +327,20 @@ def render_doc(idoc, title_args='Args', title_ret='Returns'):
     r = idoc['returns']
     if r is not None:
         lines.append(f'    {title_ret}:')
-        lines.append(f'        {r[1]}: text' if r[0] == 'typed' else '        text without a type')
+        if r[0] == 'typed':
+            lines.append(f'        {r[1]}: text')
+        elif r[0] == 'untyped':             # a Returns entry without a `type:` prefix: free text (r[1], when given; no colon in it)
+            lines += ['        ' + ln for ln in (r[1] if len(r) > 1 else 'text without a type').split('\n')]
+        elif r[0] == 'blank':               # a Returns section with nothing but white space in it
+            lines.append('        \t ')
+        else:
+            assert r[0] == 'empty'          # a Returns section with nothing in it
         lines.append('')
     return '\n'.join(lines) + '    '
 
 
 HEAD_SRC = ('from typing import *\nfrom pedantic import pedantic, pedantic_require_docstring, pedantic_class_require_docstring\n'
+            'from pedantic import pedantic_class, trace_class, timer_class, for_all_methods\n'
             'class My: pass\nclass Other: pass\nT = TypeVar("T")\n')
 DECO_SRC = {'pedantic': '@pedantic', 'require': '@pedantic_require_docstring', 'require_kw': '@pedantic(require_docstring=True)'}
 
@@ -390,27 +406,61 @@ def abstract_unit(sig, idoc, doctext, deco):
             'den': {'params': den_params, 'returns': den_ret}, 'ns': NS_JSON, 'eqs': eqs}
 
 
-def mk_case(deco, units, edit, enabled=True, titles=('Args', 'Returns'), in_domain=True):
-    """units: list of (sig, idoc) — one for a function, one per method for the class path.
-       idoc: None (no docstring) | str (literal docstring text without documented entries) | dict (intended docstring)"""
-    srcs = []
+BASE_DOC = ('        """ Summary.\n\n        Args:\n            {p} (int): text\n{r}        """\n')
+BASE_BODY = ('    def __init__(self, factor: int) -> None:\n' + BASE_DOC.format(p='factor', r='') + '        self.factor = factor\n\n'
+             '    def keep(self, v: int) -> int:\n' + BASE_DOC.format(p='v', r='\n        Returns:\n            int: text\n') + '        return v\n\n')
+# a base class that has been decorated BEFORE the class of the case is: with each class decorator built on for_all_methods, directly
+# and one level further up (every method of the base is documented consistently, so each of the decorators accepts it)
+BASES = {
+    'pedantic_class': '@pedantic_class\nclass B:\n' + BASE_BODY,
+    'pedantic_class_require_docstring': '@pedantic_class_require_docstring\nclass B:\n' + BASE_BODY,
+    'trace_class': '@trace_class\nclass B:\n' + BASE_BODY,
+    'timer_class': '@timer_class\nclass B:\n' + BASE_BODY,
+    'for_all_methods': '@for_all_methods(decorator=pedantic)\nclass B:\n' + BASE_BODY,
+    'grandparent': '@pedantic_class_require_docstring\nclass A:\n' + BASE_BODY + 'class B(A):\n    pass\n\n',
+    'undecorated': 'class B:\n' + BASE_BODY,
+}
+CLASS_DECO = {'class': '@pedantic_class_require_docstring', 'class_plain': '@pedantic_class'}
+
+
+def mk_case(deco, units, edit, enabled=True, titles=('Args', 'Returns'), in_domain=True, base=None):
+    """units: list of (sig, idoc) — one for a function, one per method for the class paths (deco 'class': the class is decorated with
+       pedantic_class_require_docstring, 'class_plain': with pedantic_class; a method is called sig['name'] or m<k>).
+       idoc: None (no docstring) | str (literal docstring text without documented entries) | dict (intended docstring)
+       base: None | key of BASES — the class of the case derives from a class decorated earlier in the module"""
+    is_cls = deco in CLASS_DECO
+    srcs, names = [], []
     for k, (sig, idoc) in enumerate(units):
         doctext = None if idoc is None else render_doc(idoc, *titles)
-        if deco == 'class':
-            srcs.append(render_fn(f'm{k}', sig, doctext, '    ', None, True))
+        if is_cls:
+            names.append(sig.get('name') or f'm{k}')
+            srcs.append(render_fn(names[-1], sig, doctext, '    ', None, True))
         else:
             srcs.append(render_fn('f', sig, doctext, '', DECO_SRC[deco], False))
-    if deco == 'class':
-        src = HEAD_SRC + '@pedantic_class_require_docstring\nclass C:\n' + '\n'.join(srcs)
+    if is_cls:
+        assert len(set(names)) == len(names)
+        src = HEAD_SRC + (BASES[base] if base else '') + CLASS_DECO[deco] + f"\nclass C{'(B)' if base else ''}:\n" + '\n'.join(srcs)
     else:
         src = HEAD_SRC + srcs[0]
     # func.__doc__ exactly as the compiler stores it (3.12: the raw constant)
-    fns = [n for n in ast.walk(ast.parse(src)) if isinstance(n, (ast.FunctionDef, ast.AsyncFunctionDef))]
+    tree = ast.parse(src)
+    if is_cls:
+        cdef = [n for n in tree.body if isinstance(n, ast.ClassDef) and n.name == 'C'][0]
+        fns = [n for n in cdef.body if isinstance(n, (ast.FunctionDef, ast.AsyncFunctionDef))]
+    else:
+        fns = [n for n in ast.walk(tree) if isinstance(n, (ast.FunctionDef, ast.AsyncFunctionDef))]
     assert len(fns) == len(units)
-    aus = [abstract_unit(sig, idoc, ast.get_docstring(fn, clean=False), deco) for (sig, idoc), fn in zip(units, fns)]
-    return {'m': 'docstring',
-            'c': {'env': {'enabled': enabled, 'parser': True}, 'kind': 'class' if deco == 'class' else 'func', 'units': aus},
-            'x': {'src': src, 'deco': deco, 'edit': edit, 'in_domain': in_domain}}
+    udeco = {'class': 'class', 'class_plain': 'pedantic'}.get(deco, deco)       # what every method is decorated with
+    aus = [abstract_unit(sig, idoc, ast.get_docstring(fn, clean=False), udeco) for (sig, idoc), fn in zip(units, fns)]
+    c = {'env': {'enabled': enabled, 'parser': True}, 'kind': 'class' if is_cls else 'func', 'units': aus}
+    x = {'src': src, 'deco': deco, 'edit': edit, 'in_domain': in_domain}
+    if deco == 'class_plain':
+        c['classdeco'] = 'plain'
+    if is_cls:
+        x['probe'] = names[0]
+    if base:
+        x['base'] = base
+    return {'m': 'docstring', 'c': c, 'x': x}
 
 
 def consistent_doc(sig, rng, canonical=False):
@@ -472,6 +522,9 @@ def edits_of(sig, cdoc, rng, per_node, near=True, near_name_count=None):
     if r is not None:
         out.append(('drop-returns', with_ret(None)))
         out.append(('untyped-returns', with_ret(('untyped',))))
+        out.append(('free-text-returns', with_ret(('untyped', rng.choice(FREE_TEXT)))))
+        out.append(('empty-returns', with_ret(('empty',))))
+        out.append(('blank-returns', with_ret(('blank',))))
         out.append(('typing-prefix-returns', with_ret(('typed', 'typing.' + r[1]))))
         out.append(('unparsable-returns', with_ret(('typed', rng.choice(UNPARSABLE)))))
         out.append(('ill-typed-returns', with_ret(('typed', rng.choice(ILL_TYPED)))))
@@ -482,6 +535,9 @@ def edits_of(sig, cdoc, rng, per_node, near=True, near_name_count=None):
     else:
         out.append(('add-returns', with_ret(('typed', rng.choice(['int', 'None', 'My'])))))
         out.append(('add-untyped-returns', with_ret(('untyped',))))
+        out.append(('add-free-text-returns', with_ret(('untyped', rng.choice(FREE_TEXT)))))
+        out.append(('add-empty-returns', with_ret(('empty',))))
+        out.append(('add-blank-returns', with_ret(('blank',))))
     return out
 
 
@@ -562,6 +618,68 @@ def near_name_cases():
     return out
 
 
+def none_returning_cases():
+    """functions that return nothing (`-> None`, no return annotation, `__init__`) with a Returns section ADDED to the consistent
+    docstring: typed, free text without a `type:` prefix (several texts, one- and two-line), empty, white space only — 0-2 parameters,
+    def / async def, every trigger path incl. `__init__` and ordinary methods of both kinds of decorated classes.  Plus the other
+    direction: a value-returning function whose Returns entry has no type / is empty.  (With plain @pedantic and no documented parameter
+    checking does not apply and the docstring is accepted.)"""
+    out = []
+    rets = [('add-untyped-returns', ('untyped',))] + [('add-free-text-returns', ('untyped', t)) for t in FREE_TEXT] \
+        + [('add-empty-returns', ('empty',)), ('add-blank-returns', ('blank',)), ('add-returns', ('typed', 'bool')), ('add-returns', ('typed', 'None'))]
+    for nparams in (0, 1, 2):
+        for ret in ('None', None):
+            for is_async in (False, True):
+                params = [('key', 'str'), ('value', 'int')][:nparams]
+                sig = {'params': params, 'ret': ret, **({'async': True} if is_async else {})}
+                docp = [(n, a) for n, a in params]
+                for label, r in [('consistent:none-returning', None)] + rets:
+                    idoc = {'params': docp, 'returns': r}
+                    if nparams == 0 and r is None:
+                        idoc = ' Summary. '
+                    for deco in ('pedantic', 'require', 'require_kw', 'class', 'class_plain'):
+                        out.append(mk_case(deco, [(sig, idoc)], label))
+                    if not is_async and ret == 'None':
+                        init = dict(sig, name='__init__')
+                        for deco in ('class', 'class_plain'):
+                            out.append(mk_case(deco, [(init, idoc)], label + ':__init__'))
+                            out.append(mk_case(deco, [(init, idoc), ({'params': [('count', 'int')], 'ret': 'int'},
+                                                                     {'params': [('count', 'int')], 'returns': ('typed', 'int')})], label + ':__init__'))
+    sig = {'params': [('key', 'str')], 'ret': 'int'}
+    for label, r in [('untyped-returns', ('untyped',)), ('empty-returns', ('empty',)), ('blank-returns', ('blank',))] \
+            + [('free-text-returns', ('untyped', t)) for t in FREE_TEXT]:
+        for deco in ('pedantic', 'require', 'class', 'class_plain'):
+            out.append(mk_case(deco, [(sig, {'params': [('key', 'str')], 'returns': r})], label))
+    return out
+
+
+H_SIGS = [
+    {'name': 'scale', 'params': [('value', 'int')], 'ret': 'int'},
+    {'name': 'keep', 'params': [('v', 'int')], 'ret': 'int'},                       # overrides a method of the base class
+    {'name': '__init__', 'params': [('factor', 'int'), ('offset', 'float')], 'ret': 'None'},
+    {'name': 'collect', 'params': [('items', 'List[My]'), ('*args', 'int')], 'ret': None, 'async': True},
+]
+
+
+def hierarchy_cases(rng, tier):
+    """class hierarchies: the class of the case derives from a class that was decorated before (with every class decorator built on
+    for_all_methods, directly and one level up; also an undecorated base and no base) and is decorated itself with
+    pedantic_class_require_docstring / pedantic_class; the methods IT defines (new ones, an override, __init__, a coroutine) carry the
+    consistent docstring or one edit of it / no docstring.  What has to happen does not depend on the base."""
+    out = []
+    other = ({'name': 'other', 'params': [('count', 'int')], 'ret': 'int'}, {'params': [('count', 'int')], 'returns': ('typed', 'int')})
+    for sig in H_SIGS:
+        cdoc = consistent_doc(sig, rng, canonical=True)
+        variants = [('consistent:hierarchy', cdoc)] + edits_of(sig, cdoc, rng, 1, near=False, near_name_count=(1 if tier == 'quick' else 4)) \
+            + [('missing-docstring', None), ('empty-docstring', ''), ('summary-only', ' Summary. ')]
+        for k, (label, idoc) in enumerate(variants):
+            for b, base in enumerate([None] + list(BASES)):
+                for deco in ('class', 'class_plain'):
+                    units = [[(sig, idoc)], [(sig, idoc), other], [other, (sig, idoc)]][(k + b) % 3]
+                    out.append(mk_case(deco, units, label, base=base))
+    return out
+
+
 def cases(rng, tier):
     out = grid_cases()
     nsig = 110 if tier == 'quick' else 1500
@@ -597,6 +715,8 @@ def cases(rng, tier):
         if k % 10 == 0:
             out.append(mk_case(deco, [(sig, cdoc)], 'consistent', enabled=False))
     out += near_name_cases()
+    out += none_returning_cases()
+    out += hierarchy_cases(rng, tier)
     # (after the seeded part: a failure that depends on an earlier case is bisected over everything that ran before it)
     # every pool annotation in every equal spelling x every near miss that merely names it, as a parameter, as the Returns
     # entry, next to a correctly documented neighbour, and under every trigger path
@@ -621,7 +741,7 @@ def search(rng, tier, near):
         cdoc = consistent_doc(sig, rng)
         for label, idoc in [('consistent', cdoc)] + edits_of(sig, cdoc, rng, 1):
             out.append(mk_case(deco, [(sig, idoc)], label))
-    return out + near_name_cases()
+    return out + near_name_cases() + none_returning_cases() + hierarchy_cases(rng, tier)
 
 
 # ------------------------------------------------------------------------------------------------ implementation side
@@ -643,7 +763,7 @@ def run_impl(cases):
             mod = importlib.util.module_from_spec(spec)
             try:
                 spec.loader.exec_module(mod)
-                target = mod.C.__dict__['m0'] if case['c']['kind'] == 'class' else mod.f
+                target = mod.C.__dict__[case['x'].get('probe', 'm0')] if case['c']['kind'] == 'class' else mod.f
                 res = 'ok' if hasattr(target, '__wrapped__') else 'original'
             except BaseException as e:
                 res = type(e).__name__
@@ -672,6 +792,7 @@ INCONSISTENT = {'drop-param', 'rename-param', 'dup-param-adjacent', 'dup-param-r
                 'unparsable-type', 'ill-typed-type', 'add-param', 'add-param-front', 'document-unannotated', 'drop-returns',
                 'untyped-returns', 'typing-prefix-returns', 'unparsable-returns', 'ill-typed-returns', 'add-returns',
                 'add-untyped-returns', 'missing-docstring', 'empty-docstring',
+                'free-text-returns', 'empty-returns', 'blank-returns', 'add-free-text-returns', 'add-empty-returns', 'add-blank-returns',
                 'bare-origin', 'bare-origin-other-spelling', 'bare-origin-returns', 'bare-origin-other-spelling-returns'}
 
 
@@ -700,7 +821,9 @@ def judge(case, impl, model):
     elif enabled:
         exp = norm(model['spec']['expected'])
         if exp != got:
-            if exp == 'ok':
+            if exp == 'ok' and got == 'original':
+                pfail = 'pedantic is enabled but the function came back undecorated: nothing was checked (consistent docstring)'
+            elif exp == 'ok':
                 pfail = f'the docstring is consistent with the signature but decoration raised {got}'
             elif got in ('ok', 'original'):
                 pfail = 'an inconsistent / missing docstring was accepted although docstring checking applies'
@@ -714,7 +837,7 @@ def judge(case, impl, model):
         # written is consistent, and the library rejects what the parser handed it with PedanticDocstringException
         if not model['parser_faithful'] and model['spec']['consistent'] and got == 'PedanticDocstringException':
             finding = F_PARSER
-    tag = f"{case['x']['deco']}/{case['x']['edit'].split('@')[0]}/{got}"
+    tag = f"{case['x']['deco']}{'<' + case['x']['base'] if case['x'].get('base') else ''}/{case['x']['edit'].split('@')[0]}/{got}"
     return {'corr': corr, 'pfail': pfail, 'finding': finding, 'nontrivial': bool(model['spec']['applies']) and enabled,
             'tag': tag, 'why': '; '.join(why)}
 
